@@ -91,9 +91,9 @@ type Track struct {
 
 // TopBox is a top-level box of the file.
 type TopBox struct {
-	Type          string
-	Start, Size   uint64
-	HdrLen        uint64
+	Type        string
+	Start, Size uint64
+	HdrLen      uint64
 }
 
 // Movie is the result of ParseProgressive.
